@@ -54,6 +54,7 @@ using Holder = gmlc::concurrency::SearchableObjectHolder<Obj, Tag>;
 using Ptr = std::shared_ptr<Obj>;
 
 thread_local int t_pcalls = 0;
+thread_local int t_in_holder = 0;  // the thread is inside a call of the holder (or its destructor)
 
 struct PredSpec {
     char kind = 'F';
@@ -126,7 +127,9 @@ void run_op(std::unique_ptr<Holder>& H, Holder* h, const std::string& text, Call
     }
     if (op == "dtor") {
         verif::emit("call dtor");
+        ++t_in_holder;
         H.reset();
+        --t_in_holder;
 #if defined(__SANITIZE_THREAD__)
         // the holder's memory is free again: stop tapping it before anything else can be allocated there
         verif::tap_clear();
@@ -139,6 +142,10 @@ void run_op(std::unique_ptr<Holder>& H, Holder* h, const std::string& text, Call
     verif::emit("call " + spaced(f));
     t_pcalls = 0;
     std::string res;
+    struct InHolder {
+        InHolder() { ++t_in_holder; }
+        ~InHolder() { --t_in_holder; }
+    } inHolder;
     try {
         if (op == "add") {
             res = h->addObject(f[1], std::make_shared<Obj>(atoi(f[2].c_str()))) ? "true" : "false";
@@ -482,6 +489,45 @@ Script gen(Rng& r, int size)
 }
 
 }  // namespace
+
+#if defined(__SANITIZE_THREAD__)
+// Tap build only: the tree NODES of the two maps are tapped as well.  They are recognised by their allocation size
+// (exact node types of this standard library) while the allocating thread is inside a call of the holder.
+namespace {
+using ONode = std::_Rb_tree_node<std::pair<const std::string, Ptr>>;
+using TNode = std::_Rb_tree_node<std::pair<const std::string, std::vector<Tag>>>;
+static_assert(sizeof(ONode) != sizeof(TNode), "node sizes must differ");
+thread_local int t_in_alloc = 0;
+}  // namespace
+void* operator new(size_t n)
+{
+    void* p = malloc(n != 0 ? n : 1);
+    if (p == nullptr) {
+        throw std::bad_alloc();
+    }
+    if (t_in_holder > 0 && t_in_alloc == 0 && verif::tracing() && (n == sizeof(ONode) || n == sizeof(TNode))) {
+        ++t_in_alloc;
+        verif::reg_range(p, n, n == sizeof(ONode) ? "objectMap" : "typeMap");
+        verif::tap_add(p, n);
+        --t_in_alloc;
+    }
+    return p;
+}
+static void tapped_free(void* p) noexcept
+{
+    // only inside a holder call: then this thread holds the scheduler's baton (map nodes are never freed elsewhere);
+    // frees made by finishing OS threads run concurrently and must not touch the harness tables
+    if (p != nullptr && t_in_alloc == 0 && t_in_holder > 0) {
+        ++t_in_alloc;
+        verif::tap_remove(p);
+        verif::unreg_range(p);
+        --t_in_alloc;
+    }
+    free(p);
+}
+void operator delete(void* p) noexcept { tapped_free(p); }
+void operator delete(void* p, size_t) noexcept { tapped_free(p); }
+#endif
 
 int main(int argc, char** argv)
 {
